@@ -2,7 +2,7 @@
 from .. import traceprop
 
 ID = "C05"
-GEN = ["MapHooks.lean", "SetCalls.lean"]   # atomic sites of map.go, call shape of Set.Add/Remove/Has regenerated from the source (tie 4B)
+GEN = ["MapHooks.lean", "SetCalls.lean", "MapFlow.lean"]   # atomic sites of map.go, call shape of Set.Add/Remove/Has regenerated from the source (tie 4B)
 SHRINK = False
 JUDGE = "ObjLin"
 RULE = ("API-level histories of Add/Remove/Has/Len/AddSet/RemoveSet on one sync2.Set recorded (a) under the controlled scheduler: every schedule with at most 2 preemptions of a "
